@@ -71,10 +71,25 @@ class Sleeps:
 def rand_msgs(rng, k):
     out = []
     for i in range(k):
+        if out and rng.random() < 0.3:
+            out.append(rng.choice(out).copy())            # the same message again
+            continue
         t = gen.random_type(rng, exclude=midi1.REALTIME_TYPES)
         a = gen.random_attrs(t, rng, maxdata=rng.choice((3, 12, 300)))
         out.append(Message(t, **a))
     return out
+
+
+def keep(got, m):
+    """Record what was received, then do what a recording application does: stamp the message.
+    A port that hands out the same object twice would show the stamp on the next arrival."""
+    got.append(m.copy())
+    try:
+        m.time = 12345
+        if 'note' in vars(m):
+            m.note = (m.note + 1) % 128
+    except Exception:
+        pass
 
 
 def stream_of(msgs):
@@ -91,7 +106,7 @@ def drain_polls(port, out, limit=10000):
         m = port.poll()
         if m is None:
             return
-        out.append(m)
+        keep(out, m)
 
 
 def cut_case(ctx, msgs, cut, seg, seed):
@@ -125,7 +140,7 @@ def cut_case(ctx, msgs, cut, seg, seed):
         b.close()
         try:
             for m in port:
-                got.append(m)
+                keep(got, m)
             ctx.count('iteration ends without exception')
         except HarnessAbort as exc:
             ctx.check('iteration ends without exception', False, 'iteration-never-ends', case, str(exc))
@@ -191,6 +206,59 @@ def peer_sees_close(ctx, how):
         ctx.fail('close is seen by the peer', f'close-visible:{type(exc).__name__}', case, f'{type(exc).__name__}: {exc}')
     finally:
         b.close()
+
+
+def close_while_receiving_case(ctx, how):
+    """One thread waits in a blocking receive on a silent connection, another closes the port.
+    Verdict by state: 10 s later close() has still not returned while the receiver is still inside
+    receive()."""
+    case = {'kind': 'close-while-receiving', 'how': how}
+    a, b = socket.socketpair()
+    port = SocketPort('x', 1, conn=a)
+    got, errors = [], []
+
+    def receiver():
+        try:
+            if how == 'iterate':
+                for m in port:
+                    got.append(m)
+            else:
+                got.append(port.receive())
+        except Exception as exc:
+            errors.append(exc)
+    ra = threading.Thread(target=receiver, daemon=True)
+    ra.start()
+    b.sendall(bytes([0x90, 1, 2]))
+    t_end = time.time() + 5
+    while time.time() < t_end and not got:
+        time.sleep(0.002)
+    if how == 'receive':
+        ra.join(5)
+        ra = threading.Thread(target=receiver, daemon=True)      # a second receive: nothing will come
+        ra.start()
+    time.sleep(0.05)
+    closer = threading.Thread(target=port.close, daemon=True)
+    closer.start()
+    closer.join(10)
+    stuck = closer.is_alive()
+    ctx.check('port reports closed after disconnect', not stuck, 'close-blocked-by-receiver', case,
+              {'close_returned': not stuck, 'receiver_alive': ra.is_alive()})
+    if stuck:
+        b.close()                       # let the receiver see EOF so that the threads can end
+        ra.join(5)
+        return
+    ra.join(10)
+    ctx.check('iteration ends without exception', not ra.is_alive() and (how == 'receive' or not errors),
+              'receiver-survives-close', case, {'alive': ra.is_alive(), 'errors': [repr(e) for e in errors]})
+    b.settimeout(5)
+    try:
+        eof = b.recv(16) == b''
+    except Exception:
+        eof = False
+    ctx.check('close is seen by the peer', eof and port.closed, 'peer-sees-no-eof-after-concurrent-close', case, None)
+    ctx.check('delivered == complete messages before the cut', [m.hex() for m in got] == ['90 01 02'],
+              'close-while-receiving-lost', case, [m.hex() for m in got])
+    b.close()
 
 
 def wait_readable(sock, timeout=5.0):
@@ -656,6 +724,10 @@ def run(ctx):
     for how in ('plain', 'after-traffic', 'with'):
         peer_sees_close(ctx, how)
         n += 1
+    if ctx.shard in (0, 1):
+        close_while_receiving_case(ctx, ('iterate', 'receive')[ctx.shard])
+        ctx.nontrivial(('close-while-receiving', ctx.shard))
+        n += 1
     for j in range(3 if ctx.tier == 'quick' else 300):
         thread_peer_case(ctx, f'{ctx.seed}:{ctx.shard}:t{j}')
         ctx.nontrivial(('thread', ctx.seed, ctx.shard, j))
@@ -696,6 +768,8 @@ def replay(ctx, case):
         thread_peer_case(ctx, case['seed'])
     elif k == 'killed-peer':
         killed_peer_case(ctx, case['seed'])
+    elif k == 'close-while-receiving':
+        close_while_receiving_case(ctx, case['how'])
     elif k == 'explicit-accept':
         explicit_accept_case(ctx, case['seed'])
     elif k == 'dying-client':
